@@ -69,6 +69,20 @@ fn service_calls(out: &ConnOutcome) -> Vec<Value> {
         .collect()
 }
 
+/// Virtual time at which the server handed the first byte of the first packet of this kind to the transport.
+fn first_write_of(out: &ConnOutcome, kind: &str) -> Option<u64> {
+    let idx = out.view.packets.iter().position(|p| p.kind == kind)?;
+    let off: usize = out.view.packets[..idx].iter().map(|p| p.len + crate::codec::varint(p.len as i32).len()).sum();
+    let mut acc = 0usize;
+    for (t, chunk) in &out.pipe.out {
+        if acc + chunk.len() > off {
+            return Some(*t);
+        }
+        acc += chunk.len();
+    }
+    None
+}
+
 fn reference_of(sc: &ConnScenario) -> ConnScenario {
     let mut r = sc.clone();
     r.client.cuts.clear();
@@ -356,7 +370,7 @@ pub fn compare(sc: &ConnScenario, refo: &ConnOutcome, var: &ConnOutcome, rep: &m
     }
     // (and only if the unanswered Keep Alive went out at the same tick in both executions: a pause that moves
     // the start of the configuration phase across a tick moves the whole keep-alive schedule with it)
-    if silent && refo.view.first("KeepAlive").map(|p| p.t_ns) != var.view.first("KeepAlive").map(|p| p.t_ns) {
+    if silent && first_write_of(refo, "KeepAlive") != first_write_of(var, "KeepAlive") {
         *rep.probes.entry("silent_client_keep_alive_schedule_moved_skipped".into()).or_insert(0) += 1;
         return;
     }
